@@ -362,6 +362,62 @@ func c16Run(c *CaseC16, perm, perm2, dup []int) c16Result {
 	return r
 }
 
+// c16MutatePoints: results depend on the coordinates of the points, not on the identity or the history of the
+// *object.Point values. The same two objects are first used with other coordinates (the end points swapped and
+// moved), then set back in place with their setters to the case's coordinates; the query on the re-used objects
+// must equal the query on fresh objects. The point-list lookup is exercised the same way on one shared slice.
+func c16MutatePoints(c *CaseC16, fl *Fails, desc string) {
+	var sp, ep Pt
+	var h, v int64
+	if c.Op == "line" {
+		sp, ep, h, v = c.C06.S, c.C06.E, c.C06.H, c.C06.V
+	} else {
+		sp, ep, h, v = c.C14.S, c.C14.E, c.C14.H, c.C14.V
+		if c.C14.Radius.V() > c14RadiusCap(c.C14.S, c.C14.E, c.C14.H)*1.0000001 || c.C14.H < 2 {
+			return
+		}
+	}
+	query := func(a, b *object.Point) ([]string, error) {
+		if c.Op == "line" {
+			return shape.GetExtendedSpatialIdsOnLine(a, b, h, v)
+		}
+		return transform.GetExtendedSpatialIdsWithinRadiusOfLine(a, b, c.C14.Radius.V(), h, v, true)
+	}
+	fresh, err := query(sp.obj(), ep.obj())
+	if err != nil {
+		return
+	}
+	want, _ := canon(fresh)
+	// re-used objects: first hold other coordinates (a neighbouring segment), get queried, then are moved in place
+	wl, hl, _ := localSizes(sp, h, v)
+	a, b := ep.obj(), clampPt(Pt{F64(sp.Lon.V() + 1.5*wl), F64(sp.Lat.V() - 1.5*hl), sp.Alt}).obj()
+	if a == nil || b == nil {
+		return
+	}
+	_, _ = query(a, b)
+	_ = a.SetLon(sp.Lon.V())
+	_ = a.SetLat(sp.Lat.V())
+	a.SetAlt(sp.Alt.V())
+	_ = b.SetLon(ep.Lon.V())
+	_ = b.SetLat(ep.Lat.V())
+	b.SetAlt(ep.Alt.V())
+	got, err := query(a, b)
+	gs, _ := canon(got)
+	if err != nil || !sameStrings(gs, want) {
+		fl.Add("object-history-"+c.Op, "%s: the query on two re-used *Point objects (moved in place with SetLon/SetLat/SetAlt after an earlier query) returns %d ids, on fresh objects with the same coordinates %d (e.g. %q, err %v)", desc, len(gs), len(want), firstDiff(want, gs), err)
+	}
+	// point-list lookup on one shared slice whose elements are moved in place between two calls
+	pts := []*object.Point{a, b}
+	first, err1 := shape.GetExtendedSpatialIdsOnPoints(pts, h, v)
+	_ = a.SetLon(ep.Lon.V())
+	_ = a.SetLat(ep.Lat.V())
+	a.SetAlt(ep.Alt.V())
+	second, err2 := shape.GetExtendedSpatialIdsOnPoints(pts, h, v)
+	if err1 == nil && err2 == nil && len(first) == 2 && len(second) == 2 && second[0] != first[1] {
+		fl.Add("object-history-points", "%s: after moving pts[0] onto pts[1]'s coordinates the lookup returns %q for it, but %q for pts[1]", desc, second[0], first[1])
+	}
+}
+
 // c16Disturb derives a related argument list: variant 0 moves every box one zoom finer keeping its index numbers,
 // variant 1 one zoom coarser keeping its index numbers (where still valid), variant 2 shifts indices by one.
 func c16Disturb(c *CaseC16, variant int) *CaseC16 {
@@ -532,6 +588,7 @@ func checkC16(c *CaseC16, fl *Fails) {
 		}
 	}
 	if c.Op == "line" || c.Op == "corridor" {
+		c16MutatePoints(c, fl, desc)
 		return
 	}
 	// permuted input
@@ -555,12 +612,36 @@ func checkC16(c *CaseC16, fl *Fails) {
 func init() {
 	register(PropT[CaseC16]{
 		ID:   "C16",
-		Rule: "rapid: an operation (zoom change, merge, overlap, line, corridor, N-layer + 6/8/26 neighbourhoods, quadkey / altitude-key / bit-form conversion, quadkey back-conversion, tile conversion; both notations where they exist) with an argument list drawn from that operation's own generator (C03, C04, C05, C06, C14, C08, C11, C13), plus a permutation of every list argument (rapid.Permutation) and 0..3 entries repeated. Oracle: 4 identical calls return equal sets, with calls of the same operation on related arguments (same index numbers at a neighbouring zoom, neighbouring indices) in between: a result must not depend on the call history; the permuted and the duplicated input return the same set (overlap: the same boolean); de-duplicated results contain no element twice; a deep copy of every input slice / object taken before the call equals it afterwards. Line and corridor take points: repeat-determinism and input preservation only. Non-trivial: list length>=3 with a repeated entry and a non-identity permutation; every line/corridor case.",
+		Rule: "rapid: an operation (zoom change, merge, overlap, line, corridor, N-layer + 6/8/26 neighbourhoods, quadkey / altitude-key / bit-form conversion, quadkey back-conversion, tile conversion; both notations where they exist) with an argument list drawn from that operation's own generator (C03, C04, C05, C06, C14, C08, C11, C13), plus a permutation of every list argument (rapid.Permutation) and 0..3 entries repeated. Oracle: 4 identical calls return equal sets, with calls of the same operation on related arguments (same index numbers at a neighbouring zoom, neighbouring indices) in between: a result must not depend on the call history; the permuted and the duplicated input return the same set (overlap: the same boolean); de-duplicated results contain no element twice; a deep copy of every input slice / object taken before the call equals it afterwards. Line and corridor take points: repeat-determinism, input preservation and independence from the identity / history of the *Point objects (objects moved in place with their setters between two queries must give the result of fresh objects). Non-trivial: list length>=3 with a repeated entry and a non-identity permutation; every line/corridor case.",
 		Assumptions: []string{
 			"map iteration order is re-randomised by the Go runtime per range statement, so repeated calls inside one process sample different orders; an order dependence with probability p per call is seen by 4 calls with probability 1-p^4-(1-p)^4 per case",
 			"ConvertTileXYZsToSpatialIDs is documented as a plain expansion (not de-duplicated): compared as a set only",
 		},
 		Gen: genC16, Check: checkC16, Classify: classifyC16,
+		Sweep: func(tier string, emit func(*CaseC16)) {
+			if tier == "quick" {
+				return
+			}
+			// results beyond 2^20 IDs (an implementation may switch strategy with size): partially overlapping
+			// (crossing-zoom), nested and repeated inputs must still give a duplicate-free, order-blind result
+			big := [][]ref.Box{
+				{{H: 0, X: 0, Y: 0, V: 3, F: 0}, {H: 3, X: 0, Y: 0, V: 0, F: 0}},
+				{{H: 3, X: 7, Y: 7, V: 0, F: -1}, {H: 0, X: 0, Y: 0, V: 3, F: -8}, {H: 1, X: 1, Y: 1, V: 1, F: -2}},
+			}
+			for _, bs := range big {
+				perm := make([]int, len(bs))
+				for i := range perm {
+					perm[i] = len(bs) - 1 - i
+				}
+				emit(&CaseC16{Op: "zoom", C03: &CaseC03{Boxes: bs, H: 10, V: 3}, Perm: perm, Dup: []int{0}})
+			}
+		},
+		SweepScopes: func(tier string) []string {
+			if tier == "quick" {
+				return nil
+			}
+			return []string{"2 zoom changes with more than 2^20 output IDs (crossing-zoom / nested inputs), repeated, permuted and with a duplicated entry"}
+		},
 		ReplayRuns: 16,
 	})
 }
